@@ -67,7 +67,12 @@ def generate(rng, tier):
                 "boundary": G.kwval(rng, axes, G.WORDS), "fill": G.kwval(rng, axes, [0, 3])}
         sizes = {d: G.plen(p, N[a]) for a, cs in coords for p, d in cs}
         sizes["t"] = 2
-        alld = list(sizes)
+        # a quarter of the grids are cut into faces glued in a ring along the first axis (so that
+        # face 0 has a left-hand neighbour too)
+        faces = rng.choice([2, 3]) if rng.random() < 0.25 else 0
+        if faces:
+            sizes["face"] = faces
+        alld = [d for d in sizes if d != "face"]       # the face dimension keeps its plain index 0..n-1
         mode = rng.random()
         dimc = [d for d in alld if (mode < 0.6 or (mode < 0.85 and rng.random() < 0.5))]
         dscoords = [{"name": d, "dims": [d]} for d in dimc]
@@ -90,6 +95,8 @@ def generate(rng, tier):
                 dims.append([dict(cs)[chosen[a][0]], sizes[dict(cs)[chosen[a][0]]]])
         if rng.random() < 0.5:
             dims.append(["t", 2])
+        if faces:
+            dims.append(["face", faces])
         rng.shuffle(dims)
         to = {a: chosen[a][1] for a in axes} if rng.random() < 0.7 else None
         dn = {d for d, _ in dims}
@@ -99,7 +106,7 @@ def generate(rng, tier):
         cases.append({"ctor": ctor, "sizes": sizes, "dscoords": dscoords, "dims": dims, "func": rng.choice(OPS),
                       "axes": op_axes, "to": to, "keep": rng.random() < 0.6, "in_coords": in_coords,
                       "name": rng.choice(["temp", "u", None]),
-                      "boundary": G.kwval(rng, axes, G.WORDS)})
+                      "boundary": G.kwval(rng, axes, G.WORDS), "faces": faces})
     return cases
 
 
@@ -116,8 +123,14 @@ def build(case):
         vals = (np.arange(int(np.prod(shape)) if shape else 1, dtype=float) * (i + 2) + 0.25 * i).reshape(shape)
         cvars[cv["name"]] = (tuple(cv["dims"]), vals if shape else float(i + 7), {"units": f"u{i}", "id": i})
     ds = ds.assign_coords({k: xr.Variable(*v) for k, v in cvars.items()})
+    kw = {}
+    if case.get("faces"):
+        n = case["faces"]
+        a0 = c["coords"][0][0]
+        kw["face_connections"] = {"face": {f: {a0: (((f - 1) % n, a0, False), ((f + 1) % n, a0, False))}
+                                           for f in range(n)}}
     g = Grid(ds, coords={a: {p: d for p, d in cs} for a, cs in c["coords"]}, periodic=c["periodic"],
-             boundary=c["boundary"], fill_value=c["fill"], autoparse_metadata=False)
+             boundary=c["boundary"], fill_value=c["fill"], autoparse_metadata=False, **kw)
     return ds, g
 
 
